@@ -15,10 +15,11 @@ Abstractions (each is observationally exact for what a caller can see through `R
   `GetBlockHash` call, `Stop`, failures, filter verdicts) is a field of `World`, indexed by the number `k` of
   `GetBlockHash` calls made so far, so "for every schedule" is "for every `World`".
 
-Quirks reproduced: requests dequeued at a height are LOST when the block fetch of that height fails or the quit
-signal is seen before it (`lost`); a batch whose least start height is above the tip scans nothing and is retried
-for ever (`MStatus.spin`); `Result` consumes the one buffered delivery, so a second call blocks (`resultCall`).
-The model is of the code WITH the F5 repair (`mergeInit`).
+Quirk reproduced: a batch whose least start height is above the tip scans nothing and is retried for ever
+(`MStatus.spin`).  The model is of the code WITH three repairs: a nil initial report does not erase a recorded one
+(`mergeInit`); requests dequeued at a height are failed together with the reporter's requests when the block fetch of
+that height fails or the quit signal is seen before it (`failNew`); `Result` returns the cached first result to every
+later call (`ReqObj.result`).
 -/
 namespace Neutrino.Utxo
 
@@ -156,8 +157,6 @@ structure St where
   next : List Req := []
   ents : List Entry := []
   out : List Deliv := []
-  /-- dequeued but dropped before reaching the reporter -/
-  lost : List Req := []
   k : Nat := 0
   quit : Bool := false
   log : List Ev := []
@@ -165,15 +164,20 @@ structure St where
 def St.fail (st : St) (e : Err) (h : Nat) : St :=
   { st with ents := [], out := st.out ++ failAll st.ents e h }
 
+/-- `failRequests`: the error goes to the requests just taken from the queue for height `h`, which the reporter
+does not hold yet -/
+def failNew (new : List Req) (e : Err) (upto : Nat) : List Deliv :=
+  new.map (fun q => ⟨q, .err e, upto⟩)
+
 inductive Step
   | cont (st : St)
   | fail (st : St)
 
 /-- the part of an iteration after the decision to fetch the block -/
 def fetchStep (w : World) (h : Nat) (st : St) (new : List Req) : Step :=
-  if st.quit then .fail ({ st with lost := st.lost ++ new }.fail .shutdown h)
+  if st.quit then .fail ({ st with out := st.out ++ failNew new .shutdown h }.fail .shutdown h)
   else if w.blockErr st.k then
-    .fail ({ st with lost := st.lost ++ new, log := st.log ++ [Ev.block h false] }.fail .blockFail h)
+    .fail ({ st with out := st.out ++ failNew new .blockFail h, log := st.log ++ [Ev.block h false] }.fail .blockFail h)
   else
     let blk := blockAt w.chain h
     let r := notifySpends blk h (addNew blk h st.ents new)
@@ -267,13 +271,15 @@ def ReqObj.deliver (o : ReqObj) (r : Res) : ReqObj :=
   | none => { o with chan := some r }
   | some _ => o
 
-/-- `Result` with no cancel and no quit: `none` = the caller blocks -/
+/-- `Result` with no cancel and no quit: the cached first result if there is one, else a receive from the channel
+(which is cached); `none` = the caller blocks -/
 def ReqObj.result (o : ReqObj) : ReqObj × Option Res :=
-  match o.chan with
-  | none => (o, none)
-  | some r =>
-    let c := match o.cache with | none => r | some c => c
-    ({ chan := none, cache := some c }, some c)
+  match o.cache with
+  | some c => (o, some c)
+  | none =>
+    match o.chan with
+    | none => (o, none)
+    | some r => ({ chan := none, cache := some r }, some r)
 
 /-- what request `q` finds in its channel after the deliveries `out` -/
 def objAfter (out : List Deliv) (q : Req) : ReqObj :=
